@@ -23,32 +23,33 @@ RULE = ('full product F kind x n x Q kind x dt; for each point all equal splitti
 ASSUMPTIONS = ['reference: scaling-and-squaring Taylor exponential in longdouble, composite 10-point '
                'Gauss-Legendre (not Van Loan)', '||F|| dt capped at 64 (cap reported); sharpness follows the measured conditioning kappa',
                'tolerance c eps n kappa (||Qd|| + ||Q|| dt), kappa = measured conditioning: max of max_s ||e^{Fs}|| ||e^{-Fs}|| and that of the Van Loan block matrix (the documented method)']
-F_KINDS = ['zero', 'nilpotent', 'stable_diag', 'stable_cascade', 'unstable_diag', 'skew', 'mixed_dense', 'ins15', 'ins21']
+F_KINDS = ['zero', 'nilpotent', 'stable_diag', 'stable_cascade', 'jordan', 'unstable_diag', 'skew', 'spiral', 'mixed_dense', 'ins15', 'ins21']
+NS_THOROUGH = [1, 2, 3, 4, 5, 6, 9, 12, 15, 20, 24]
 NS = [1, 2, 3, 9, 15, 24]
 Q_KINDS = ['zero', 'diag', 'rank1', 'dense']
-DTS = [0.0, 1e-3, 0.1, 1.0, 10.0]
+DTS = [0.0, 1e-6, 1e-3, 0.01, 0.1, 0.5, 1.0, 3.0, 10.0]
 CAP = 64.0
 
 
 def gen_cases(tier, seed):
     cases = []
-    for fk, n, qk, dt in itertools.product(F_KINDS, NS, Q_KINDS, DTS):
+    for fk, n, qk, dt in itertools.product(F_KINDS, NS if tier == 'quick' else NS_THOROUGH, Q_KINDS, DTS):
         if fk.startswith('ins'):
             if n != NS[0]:
                 continue
             for op in range(3):
                 cases.append(dict(F=fk, n=int(fk[3:]), Q=qk if qk != 'dense' else 'model', dt=dt, op=op,
-                                  parts=4 if tier == 'quick' else 6))
+                                  parts=6 if tier == 'quick' else 8))
             continue
-        if fk == 'skew' and n == 1:
+        if fk in ('skew', 'spiral') and n == 1:
             continue
-        cases.append(dict(F=fk, n=n, Q=qk, dt=dt, op=0, parts=4 if tier == 'quick' else 6))
+        cases.append(dict(F=fk, n=n, Q=qk, dt=dt, op=0, parts=6 if tier == 'quick' else 8))
         if qk != 'zero' and n in (2, 9):
             # tiny noise densities (a (1e-6)^2 gyro noise): small is not zero
-            cases.append(dict(F=fk, n=n, Q=qk, dt=dt, op=0, parts=4 if tier == 'quick' else 6, q_scale=1e-12))
+            cases.append(dict(F=fk, n=n, Q=qk, dt=dt, op=0, parts=6 if tier == 'quick' else 8, q_scale=1e-12))
         if fk in ('zero', 'nilpotent') and n in (2, 3, 9):
             # argument form: integer-typed F (as the library's own nilpotent test passes it)
-            cases.append(dict(F=fk, n=n, Q=qk, dt=dt, op=0, parts=4 if tier == 'quick' else 6, int_F=True))
+            cases.append(dict(F=fk, n=n, Q=qk, dt=dt, op=0, parts=6 if tier == 'quick' else 8, int_F=True))
     return cases
 
 
@@ -105,6 +106,13 @@ def build(case):
     elif fk == 'stable_cascade':
         # strictly stable and non-normal: negative diagonal with a forward coupling chain
         F = -np.diag(0.5 + 0.25 * np.arange(n)) + (np.diag(np.ones(n - 1), 1) if n > 1 else 0.0)
+    elif fk == 'jordan':
+        # one repeated eigenvalue, not diagonalisable (defective): e^{Ft} has polynomial-times-exponential entries
+        F = -0.5 * np.eye(n) + (np.diag(np.ones(n - 1), 1) if n > 1 else 0.0)
+    elif fk == 'spiral':
+        # growing oscillation: 0.2 I plus a skew part
+        A = np.array([[np.cos(0.7 * (i + 2) * (j + 1)) for j in range(n)] for i in range(n)])
+        F = 0.2 * np.eye(n) + 0.5 * (A - A.T)
     elif fk == 'unstable_diag':
         F = np.diag(0.1 + 0.15 * np.arange(n)) * (1 - 2 * (np.arange(n) % 3 == 0))
     elif fk == 'skew':
